@@ -396,6 +396,31 @@ func C09(e *core.Env) int {
 			}
 			return second
 		})
+		add("samesize", func(dir string) c09Obs {
+			// previous output of exactly the same length, but other (still loadable) content
+			first := obsCLI(dir, wd(dir), canon, nil, "first")
+			if first.exit != 0 {
+				return obsCLI(dir, wd(dir), canon, nil, "regeneration over an equally long previous output")
+			}
+			for fp, b := range first.files {
+				full := filepath.Join(dir, fp)
+				idx := strings.Index(b, "DO NOT EDIT")
+				mod := b
+				if idx >= 0 {
+					mod = b[:idx] + "do not edit" + b[idx+len("DO NOT EDIT"):]
+				}
+				os.WriteFile(full, []byte(mod), 0o644)
+			}
+			second := obsCLI(dir, wd(dir), canon, nil, "regeneration over an equally long previous output")
+			if second.exit == 0 {
+				now := snapshotFiles(dir)
+				second.files = map[string]string{}
+				for fp := range first.files {
+					second.files[fp] = now[fp]
+				}
+			}
+			return second
+		})
 		add("regenerate", func(dir string) c09Obs {
 			first := obsCLI(dir, wd(dir), canon, nil, "first")
 			second := obsCLI(dir, wd(dir), canon, nil, "regeneration over own output")
